@@ -55,7 +55,7 @@ Proof.
 Qed.
 
 (* INCLUSION, unbounded.  The independent specification of a type (spec/mt_layouts.json rendered as a tag expression,
-   gen/Specs.v) is a regular language over full tags.  For the 24 types not listed in inclusion_open: EVERY text whose
+   gen/Specs.v: a finite union of tag expressions, [spec_lang]) is a regular language over full tags.  For the 24 types not listed in inclusion_open: EVERY text whose
    tag sequence is a word of the specification -- any number of repetitions, any combination of optional fields and option
    letters -- and whose tokens are good is accepted by the regenerated layout and reproduced token for token.
    A token is good when every field parser the layout may apply to its tag answers as expected on its content: a plain
@@ -63,9 +63,9 @@ Qed.
    Proved by an abstract interpretation of the layout over the residuals of the expression (Engine/Abs.v), whose
    soundness with respect to the interpreter is Engine/AbsSound.v and whose verdict on the regenerated layouts is
    re-computed on every run (gen_inclusion_ok). *)
-Theorem C03_specification_is_accepted : forall T L R,
-  lookup T all_layouts = Some L -> lookup T specs = Some R -> mem T inclusion_open = false ->
-  forall fparse toks, matches R (map fst toks) -> Forall (good_token fparse L) toks ->
+Theorem C03_specification_is_accepted : forall T L alts,
+  lookup T all_layouts = Some L -> lookup T specs = Some alts -> mem T inclusion_open = false ->
+  forall fparse toks, spec_lang alts (map fst toks) -> Forall (good_token fparse L) toks ->
   forall f, lsize L + List.length toks + 1 <= f ->
   exists its, trun fparse f L toks = Accept its /\ map tok_of its = toks.
 Proof. exact spec_inclusion. Qed.
@@ -74,9 +74,9 @@ Proof. exact spec_inclusion. Qed.
    deviations (spec/mt_layouts_restricted.json: MT940 without 25P / 60M / 62M / final 86, with 1..500 statement lines;
    MT196 without 11a; MT101/104/107 with at most one of the two field-50 roles per place, in MT101 sequence B an ordering
    customer only after an instructing party) IS accepted, unboundedly *)
-Theorem C03_restricted_specification_is_accepted : forall T L R,
-  lookup T all_layouts = Some L -> lookup T specs_restricted = Some R ->
-  forall fparse toks, matches R (map fst toks) -> Forall (good_token fparse L) toks ->
+Theorem C03_restricted_specification_is_accepted : forall T L alts,
+  lookup T all_layouts = Some L -> lookup T specs_restricted = Some alts ->
+  forall fparse toks, spec_lang alts (map fst toks) -> Forall (good_token fparse L) toks ->
   forall f, lsize L + List.length toks + 1 <= f ->
   exists its, trun fparse f L toks = Accept its /\ map tok_of its = toks.
 Proof. exact spec_inclusion_restricted. Qed.
@@ -98,7 +98,7 @@ Local Open Scope list_scope.
 Definition spec_word_rejected (T : string) (tags : list string) : Prop :=
   let toks := map (fun t => (bs t, bs "X")) tags in
   match lookup (bs T) specs, lookup (bs T) all_layouts with
-  | Some R, Some L => matchb R (map fst toks) = true /\ (exists e, trun model_fparse 400 L toks = Reject e)
+  | Some alts, Some L => existsb (fun R => matchb R (map fst toks)) alts = true /\ (exists e, trun model_fparse 400 L toks = Reject e)
   | _, _ => False
   end.
 Theorem C03_inclusion_refuted_for_open_types :
